@@ -96,6 +96,7 @@ type Profile struct {
 	// BlockFailureIsViolation: FinalizeBlock/Commit error or panic is this property's violation (C18)
 	BlockFailureIsViolation bool
 	VaryFees                bool                         // pay tx fees in any funded denom
+	NoRealGov               bool                         // governance messages only as environment actions (never as real proposals)
 	ExtraOps                func(h *History, g *G) []*Op // profile-specific txs added to every block
 	FinalOps                func(h *History, g *G) []*Op // txs of a closing block (tagged "final" in the trace)
 }
@@ -221,6 +222,14 @@ func (h *History) step(gap time.Duration, env []EnvAction, kinds []string) []Vio
 	h.Prev = h.Cur
 	h.Cur = w.Snapshot()
 	h.rememberPrices()
+	if pa, fa, re := proposalOutcomes(blk); pa+fa+re > 0 {
+		h.Labels["gov-real-proposals-passed"] += pa
+		h.Labels["gov-real-proposals-failed-in-execution"] += fa
+		h.Labels["gov-real-proposals-rejected"] += re
+		if pa > 0 && len(blk.Txs) > 0 {
+			h.Labels["gov-real-proposal-executed-in-a-block-with-txs"]++
+		}
+	}
 	// harness-known donations
 	for i, tx := range blk.Txs {
 		if tx.Code == 0 && i < len(kinds) && kinds[i] == "bank.send_to_pool" {
@@ -302,12 +311,25 @@ func runHistoryCore(t *rapid.T, p *Profile) (*History, []Violation) {
 	for b := 0; b < nBlocks && len(viol) == 0; b++ {
 		g := &G{T: t, H: h, W: h.W, S: h.Cur, Busy: map[string]bool{}}
 		var env []EnvAction
+		var preKinds []string
 		if p.PreBlock != nil {
-			env = p.PreBlock(h, g)
-			for _, e := range env {
+			for _, e := range p.PreBlock(h, g) {
+				// one governance message in three travels as a real proposal (gov.go): submitted and voted in this
+				// block, executed by the gov end-blocker of the block in which the voting period ends
+				if e.Kind == "gov_msg" && !p.NoRealGov && g.Int("gov/real?", 0, 2) == 0 {
+					var msg sdk.Msg
+					if err := h.W.App.AppCodec().UnmarshalInterfaceJSON([]byte(e.Args["msg"]), &msg); err == nil {
+						if err := h.W.SubmitProposal([]sdk.Msg{msg}, false); err == nil {
+							preKinds = append(preKinds, "gov.proposal", "gov.proposal")
+							h.Labels["gov-real-proposals-submitted"]++
+							continue
+						}
+					}
+				}
 				if err := ApplyEnv(h.W, e); err != nil {
 					t.Fatalf("harness: env action %v: %v", e, err)
 				}
+				env = append(env, e)
 			}
 		}
 		var extra []*Op
@@ -315,7 +337,7 @@ func runHistoryCore(t *rapid.T, p *Profile) (*History, []Violation) {
 			extra = p.ExtraOps(h, g) // marks its accounts busy before the grammar's txs are drawn
 		}
 		ntx := g.Int("ntx", 0, p.MaxTxs)
-		var kinds []string
+		kinds := append([]string{}, preKinds...)
 		for i := 0; i < ntx; i++ {
 			name := drawWeighted(g, names, ws)
 			gen := AllOps[name]
